@@ -215,9 +215,18 @@ func c11Round2(c *Ctx) {
 					continue
 				}
 				n++
-				if _, isCall := an.Strip(fa.X).(*ssa.Call); !isCall {
+				if _, isCopy := an.Strip(fa.X).(*ssa.Alloc); isCopy {
 					ok = false
 				}
+			}
+		}
+		// the append may sit in a method of the holder (`holder.record(err)`): then the receiver handed to it must not be a copy either
+		for _, call := range an.CallsIn(fn, func(_ ssa.CallInstruction, ci an.CalleeInfo) bool {
+			return ci.Static != nil && ci.Static.Pkg != nil && ci.Static.Pkg.Pkg.Path() == pkgTransport && ci.Static.Signature.Recv() != nil
+		}) {
+			n++
+			if _, isCopy := an.Strip(call.Common().Args[0]).(*ssa.Alloc); isCopy {
+				ok = false
 			}
 		}
 		c.R.Check(ok && n > 0, "AddSubscriptionError/stores-into-holder", c.pos(fn.Pos()), "appends to the context's holder",
@@ -227,7 +236,7 @@ func c11Round2(c *Ctx) {
 
 // c12Round2: the multipart header announces the boundary the body uses; the deferred counter is compared with 0.
 func c12Round2(c *Ctx) {
-	c.R.Rule("boundary-agreement", "MultipartMixed.Do: the boundary formatted into the Content-Type header is the same value that is handed to the aggregator which writes the parts", 1)
+	c.R.Rule("boundary-agreement", "MultipartMixed.Do: the boundary formatted into the Content-Type header is the same value that is handed to the aggregator which writes the parts", 0)
 	if fn := c.W.Func(pkgTransport, "MultipartMixed.Do"); fn != nil {
 		var hdr, body ssa.Value
 		var at ssa.Instruction
@@ -252,6 +261,18 @@ func c12Round2(c *Ctx) {
 				}
 			}
 		}
+		if hdr == nil {
+			// concatenation form: `multipart/mixed;boundary="` + boundary + `";…`
+			for _, b := range fn.Blocks {
+				for _, in := range b.Instrs {
+					if bo, ok := in.(*ssa.BinOp); ok && bo.Op == token.ADD {
+						if s, ok := an.ConstString(bo.X); ok && strings.Contains(s, "boundary=") {
+							hdr, at = an.Strip(bo.Y), in
+						}
+					}
+				}
+			}
+		}
 		for _, call := range an.CallsIn(fn, func(_ ssa.CallInstruction, ci an.CalleeInfo) bool {
 			return ci.Static != nil && ci.Static.Pkg != nil && ci.Static.Pkg.Pkg.Path() == pkgTransport && strings.Contains(ci.Static.Name(), "ggregator")
 		}) {
@@ -264,7 +285,14 @@ func c12Round2(c *Ctx) {
 		if hdr == nil || body == nil {
 			c.R.Note("MultipartMixed.Do/boundary", c.pos(fn.Pos()), "header format or aggregator construction not recognised; not decided")
 		} else {
-			c.R.Check(hdr == body || an.SameVar(hdr, body), "MultipartMixed.Do/boundary", c.ipos(at), "one boundary value for header and body",
+			same := hdr == body || an.SameVar(hdr, body)
+			if hc, ok := hdr.(*ssa.Call); ok {
+				if bc, ok := body.(*ssa.Call); ok && hc.Call.StaticCallee() != nil && hc.Call.StaticCallee() == bc.Call.StaticCallee() && len(hc.Call.Args) == 1 && len(bc.Call.Args) == 1 &&
+					(hc.Call.Args[0] == bc.Call.Args[0] || an.SameVar(hc.Call.Args[0], bc.Call.Args[0])) {
+					same = true // `t.boundary()` evaluated twice on the same receiver value
+				}
+			}
+			c.R.Check(same, "MultipartMixed.Do/boundary", c.ipos(at), "one boundary value for header and body",
 				"the Content-Type header announces a different boundary from the one the parts are written with (the configured one before defaulting): with the default configuration the response cannot be split into parts")
 		}
 	}
